@@ -141,16 +141,40 @@ class Outcome:
         return self.kind in ("deadlock", "timecap", "stepcap")
 
 
+def _await_chain(coro: Any) -> list[str]:
+    """Names of the coroutines a suspended task is parked in, outermost first."""
+    names = []
+    seen = 0
+    while coro is not None and seen < 30:
+        seen += 1
+        code = getattr(coro, "cr_code", None) or getattr(coro, "gi_code", None) or getattr(coro, "ag_code", None)
+        frame = getattr(coro, "cr_frame", None) or getattr(coro, "gi_frame", None) or getattr(coro, "ag_frame", None)
+        if code is not None:
+            names.append(f"{code.co_name}:{frame.f_lineno}" if frame is not None else code.co_name)
+        nxt = getattr(coro, "cr_await", None)
+        if nxt is None:
+            nxt = getattr(coro, "gi_yieldfrom", None)
+        if nxt is None:
+            nxt = getattr(coro, "ag_await", None)
+        if nxt is None or nxt is coro:
+            break
+        coro = nxt
+    else:
+        pass
+    if coro is not None and not (hasattr(coro, "cr_code") or hasattr(coro, "gi_code")):
+        names.append(type(coro).__name__)
+    return names
+
+
 def describe_pending(loop: SimLoop) -> list[str]:
     out = []
     for t in asyncio.all_tasks(loop):
         if t.done():
             continue
-        frames = t.get_stack(limit=8)
-        where = " < ".join(f"{f.f_code.co_name}" for f in reversed(frames)) if frames else "?"
         coro = t.get_coro()
         name = getattr(coro, "__qualname__", type(coro).__name__)
-        out.append(f"{name} parked in {where}")
+        chain = _await_chain(coro)
+        out.append(f"{name} parked in {' > '.join(chain[-6:])}")
     return sorted(out)
 
 
